@@ -201,6 +201,121 @@ theorem record_perm (ext : Ext) (sfs : Fields) (n : Bool) (md : Metadata) (nm nm
     rw [pickOne_perm hperm hw]
     exact hf
 
+/-! ### absent fields, fields given twice -/
+
+def SFields.keys : SFields → List String
+  | .nil => []
+  | .cons k _ _ r => k :: SFields.keys r
+
+/-- how many entries of a struct presentation carry the key `name` -/
+def SFields.count (name : String) : SFields → Nat
+  | .nil => 0
+  | .cons k _ _ r => (if k == name then 1 else 0) + SFields.count name r
+
+theorem interpByName_length (ext : Ext) (name : String) (dt : DataType) (n : Bool) (md : Metadata) :
+    ∀ (fs : SFields) (found : List LVal), interpByName ext name dt n md fs = .ok found → found.length = SFields.count name fs
+  | .nil, found, h => by simp [interpByName] at h; subst h; rfl
+  | .cons k al v r, found, h => by
+    simp only [interpByName] at h
+    obtain ⟨vs, hvs, h⟩ := (bind_ok _ _ _).1 h
+    have ih := interpByName_length ext name dt n md r vs hvs
+    by_cases hk : (k == name) = true
+    · simp only [hk, if_true] at h
+      obtain ⟨w, _, h⟩ := (bind_ok _ _ _).1 h
+      cases h
+      simp [SFields.count, hk, ih]; omega
+    · simp only [hk, Bool.false_eq_true, if_false] at h
+      cases h
+      simp [SFields.count, hk, ih]
+
+theorem mapM_error_of_mem {α β} {g : α → R β} : ∀ {l : List α} {a : α}, a ∈ l → (∃ e, g a = .error e) →
+    ∃ e, l.mapM g = .error e
+  | b :: l, a, hmem, he => by
+    rw [List.mapM_cons]
+    cases hb : g b with
+    | error e => exact ⟨e, rfl⟩
+    | ok vb =>
+      rcases List.mem_cons.1 hmem with rfl | hmem
+      · obtain ⟨e, he⟩ := he; rw [he] at hb; cases hb
+      · obtain ⟨e, he'⟩ := mapM_error_of_mem hmem he
+        exact ⟨e, by simp [he', bind, Except.bind]⟩
+
+/-- a struct presentation is undefined (has no documented value) as soon as ONE schema field's candidates are refused -/
+theorem record_error_of_field (ext : Ext) (sfs : Fields) (n : Bool) (md : Metadata) (nm : String) (fs : SFields)
+    (f : Field) (hf : f ∈ sfs.toList)
+    (hbad : ∀ found, interpByName ext f.name f.dataType f.nullable f.metadata fs = .ok found →
+      ∃ e, pickOne f.name f.nullable f.dataType f.metadata found = .error e) :
+    ∃ e, interpDT ext (.struct sfs) n md (.record nm fs) = .error e := by
+  simp only [interpDT, isUnknownVariant, Bool.false_eq_true, if_false, structOf]
+  obtain ⟨e, he⟩ := mapM_error_of_mem (g := fun f => do
+      let found ← interpByName ext f.name f.dataType f.nullable f.metadata fs
+      let v ← pickOne f.name f.nullable f.dataType f.metadata found
+      pure (f.name, v)) hf (by
+    cases hfound : interpByName ext f.name f.dataType f.nullable f.metadata fs with
+    | error e => exact ⟨e, by simp [bind, Except.bind]⟩
+    | ok found =>
+      obtain ⟨e, he⟩ := hbad found hfound
+      exact ⟨e, by simp [he, bind, Except.bind]⟩)
+  exact ⟨e, by rw [he]; rfl⟩
+
+/-- **an absent non-nullable field is an error**: no documented value, whatever else the record holds -/
+theorem absent_required_is_error (ext : Ext) (sfs : Fields) (n : Bool) (md : Metadata) (nm : String) (fs : SFields)
+    (f : Field) (hf : f ∈ sfs.toList) (hreq : f.nullable = false) (habs : SFields.count f.name fs = 0) :
+    ∃ e, interpDT ext (.struct sfs) n md (.record nm fs) = .error e := by
+  apply record_error_of_field ext sfs n md nm fs f hf
+  intro found hfound
+  have hl := interpByName_length ext _ _ _ _ fs found hfound
+  rw [habs] at hl
+  have : found = [] := List.length_eq_zero_iff.1 hl
+  subst this
+  exact ⟨_, by simp only [pickOne, hreq]; rfl⟩
+
+/-- **a field given twice is an error** (nullable or not, equal values or not) -/
+theorem duplicate_is_error (ext : Ext) (sfs : Fields) (n : Bool) (md : Metadata) (nm : String) (fs : SFields)
+    (f : Field) (hf : f ∈ sfs.toList) (hdup : 2 ≤ SFields.count f.name fs) :
+    ∃ e, interpDT ext (.struct sfs) n md (.record nm fs) = .error e := by
+  apply record_error_of_field ext sfs n md nm fs f hf
+  intro found hfound
+  have hl := interpByName_length ext _ _ _ _ fs found hfound
+  match found, hl with
+  | [], hl => simp at hl; omega
+  | [_], hl => simp at hl; omega
+  | _ :: _ :: _, _ => exact ⟨_, rfl⟩
+
+theorem interpByName_absent (ext : Ext) (name : String) (dt : DataType) (n : Bool) (md : Metadata) :
+    ∀ (fs : SFields), SFields.count name fs = 0 → interpByName ext name dt n md fs = .ok []
+  | .nil, _ => rfl
+  | .cons k al v r, h => by
+    simp only [SFields.count] at h
+    have hk : (k == name) = false := by
+      cases hk : (k == name) with
+      | false => rfl
+      | true => simp [hk] at h
+    simp only [interpByName, hk, interpByName_absent ext name dt n md r (by simp [hk] at h; exact h), bind, Except.bind]
+    rfl
+
+/-- **an absent nullable field is null**: leaving a field out and giving it as an explicit `None` (or unit) mean the
+same record — for every schema in which the fields of that name are nullable -/
+theorem absent_nullable_is_null (ext : Ext) (sfs : Fields) (n : Bool) (md : Metadata) (nm key : String) (al : Nat)
+    (rest : SFields) (hnull : ∀ f ∈ sfs.toList, f.name = key → f.nullable = true) (habs : SFields.count key rest = 0) :
+    interpDT ext (.struct sfs) n md (.record nm (.cons key al .none rest)) =
+      interpDT ext (.struct sfs) n md (.record nm rest) := by
+  simp only [interpDT, isUnknownVariant, Bool.false_eq_true, if_false, structOf]
+  congr 1
+  apply extra_field_ignored.mapM_congr
+  intro f hf
+  by_cases hk : f.name = key
+  · have hn := hnull f hf hk
+    subst hk
+    simp only [interpByName, interpByName_absent ext _ _ _ _ rest habs, beq_self_eq_true, if_true, interpDT, bind,
+      Except.bind, pure, Except.pure]
+    cases hi : interpNull f.dataType f.nullable f.metadata with
+    | error e => rw [hn] at hi; simp [pickOne, hn, hi]
+    | ok v => rw [hn] at hi; simp [pickOne, hn, hi]
+  · have : (key == f.name) = false := by simpa using Ne.symm hk
+    simp only [interpByName, this, bind, Except.bind]
+    cases interpByName ext f.name f.dataType f.nullable f.metadata rest <;> rfl
+
 /-! ### tuple in schema order = struct presentation -/
 
 /-- the struct presentation of a positional record: the schema's field names, in schema order, paired with the values
